@@ -150,6 +150,33 @@ def run(ctx):
         wants.append("%d %s" % (r.returncode, ",".join(map(str, got)) or "-"))
         infos.append(info)
         nwait += 1
+    # many pids, most of which are gone already (reported by the kernel as ESRCH entries, one per pid)
+    for t in range(ctx.n(2, 8)):
+        ngone, nlive = rng.choice([(18, 2), (17, 1), (30, 3), (5, 1)]) if t else (18, 2)
+        gone = []
+        for _ in range(ngone):
+            pz = subprocess.Popen(["true"])
+            pz.wait()
+            gone.append(pz.pid)
+        durs = rng.sample([0.3, 0.6, 0.9], nlive)
+        live = [subprocess.Popen(["sleep", str(x)]) for x in durs]
+        args = [str(x) for x in gone] + [str(kd.pid) for kd in live]
+        rng.shuffle(args)
+        allflag = (t % 2 == 1)
+        r = subprocess.run([cr.wait] + (["-a"] if allflag else []) + args, capture_output=True, timeout=30)
+        got = [int(x) for x in r.stdout.decode().split()]
+        for kd in live:
+            kd.wait()
+        want = [] if allflag else [int(a) for a in args if int(a) in [kd.pid for kd in live]]
+        info = dict(argv="robsd-wait%s <%d pids of processes that are gone> <%d pids of sleep>" % (" -a" if allflag else "", ngone, nlive), printed=got, rc=r.returncode,
+                    stderr=r.stderr.decode(errors="replace")[-200:])
+        if r.returncode != 0 or got != want:
+            ctx.violation("robsd-wait with %d pids that are gone and %d running: exit %d, printed %s, still running %s" % (ngone, nlive, r.returncode, got, want), info)
+        by_exit = [kd.pid for kd in sorted(live, key=lambda kd: durs[live.index(kd)])]
+        reqs.append("wait %d %s %s" % (1 if allflag else 0, ",".join(a.encode().hex() for a in args), "|".join([";".join(str(x) for x in gone)] + [str(x) for x in by_exit])))
+        wants.append("%d %s" % (r.returncode, ",".join(map(str, got)) or "-"))
+        infos.append(info)
+        nwait += 1
     for bad in (["0"], ["abc"], ["-1"], ["99999999999"], ["12", "1x"], [" 7x"]):
         r = subprocess.run([cr.wait] + bad, capture_output=True, timeout=10)
         reqs.append("wait 0 %s 1" % ",".join(a.encode().hex() for a in bad))
